@@ -36,6 +36,15 @@ def main():
         # (top level, inside a function, inside a class body, inside a method), plus this case's own level
         depth = module.count('.')
         levels = sorted(set([level] + list(range(1, depth + 1)))) if level else [0]
+        # the order in which the levels first appear in the file varies from case to case (increasing, decreasing,
+        # deepest first then the others, this case's own level first): each import resolves on its own
+        order = (level + len(target or '') + depth) % 4
+        if order == 1:
+            levels = levels[::-1]
+        elif order == 2:
+            levels = levels[-1:] + levels[:-1]
+        elif order == 3 and level in levels:
+            levels = [level] + [x for x in levels if x != level][::-1]
         lines, want = [], {}
         for lv in levels:
             st = 'from %s%s import nm as al, other' % ('.' * lv, target or '')
